@@ -621,6 +621,47 @@ Proof.
 Qed.
 
 (* ------------------------------------------------------------------------------------------------ *)
+(** * heterosegmented gc-PC-SAFT: dipole moment of a molecule ([GcPcSaftEosParameters::from_segments])
+      mu^2 = sum over the segment kinds of  count * mu_kind^2  (kinds without a dipole contribute nothing);
+      the molecule is dipolar iff that sum is positive, and then m, sigma^3, epsilon of the molecule follow the same
+      rules as in the homosegmented case ([raw_sum f_m], [f_s3], [f_eps]). *)
+
+(** dipole moment of a segment kind; the segment records are collected into a map (last record wins); no record or a
+    record without [mu]: 0 *)
+Definition mu_get (mus : list (N * Q)) (id : N) : Q :=
+  match find (fun r => N.eqb (fst r) id) (rev mus) with Some r => snd r | None => 0 end.
+
+Definition mu_sq (mus : list (N * Q)) (id : N) : Q := mu_get mus id * mu_get mus id.
+
+(** as the code computes it: over the count map *)
+Definition hetero_mu2 (mus : list (N * Q)) (segs : list N) : Q := csum (mu_sq mus) (segment_count segs).
+
+(** the documented rule: every segment of the molecule contributes its mu^2 *)
+Theorem hetero_mu2_rule : forall mus segs, hetero_mu2 mus segs == lsum (map (mu_sq mus) segs).
+Proof. intros. unfold hetero_mu2, segment_count. apply (csum_count_list N N.eqb Neqb_spec). Qed.
+
+Theorem hetero_mu2_perm : forall mus segs segs', Permutation segs segs' -> hetero_mu2 mus segs == hetero_mu2 mus segs'.
+Proof. intros. rewrite !hetero_mu2_rule. apply lsum_perm. now apply Permutation_map. Qed.
+
+Lemma lsum_app : forall a b, lsum (a ++ b) == lsum a + lsum b.
+Proof. induction a as [|x a IH]; intro b; simpl; [ring | rewrite IH; ring]. Qed.
+
+(** additive over the parts of a molecule ... *)
+Theorem hetero_mu2_app : forall mus s1 s2, hetero_mu2 mus (s1 ++ s2) == hetero_mu2 mus s1 + hetero_mu2 mus s2.
+Proof. intros. rewrite !hetero_mu2_rule, map_app. apply lsum_app. Qed.
+
+(** ... in particular a dipolar group that occurs n times contributes n times its mu^2 *)
+Theorem hetero_mu2_repeat : forall mus id n, hetero_mu2 mus (repeat id n) == qn n * mu_sq mus id.
+Proof.
+  intros. rewrite hetero_mu2_rule. induction n as [|n IH]; simpl repeat; simpl map; simpl lsum.
+  - unfold qn. simpl. ring.
+  - rewrite IH, qn_S. ring.
+Qed.
+
+Theorem hetero_mu2_cons : forall mus id segs, hetero_mu2 mus (id :: segs) == mu_sq mus id + hetero_mu2 mus segs.
+Proof. intros. rewrite !hetero_mu2_rule. reflexivity. Qed.
+
+(* ------------------------------------------------------------------------------------------------ *)
 (** * Non-vacuity *)
 
 Example ex_segment_count : segment_count [3; 5; 3; 3; 7]%N = [(3%N, 3%nat); (5%N, 1%nat); (7%N, 1%nat)].
@@ -641,6 +682,9 @@ Proof. reflexivity. Qed.
 
 Example ex_two_polar : from_segments_one [1; 1]%N [(1%N, mkSeg 15 1 4 200 true)] = Err EIncompat.
 Proof. reflexivity. Qed.
+
+Example ex_hetero_mu2_twice : hetero_mu2 [(5%N, 3#2)] [1; 5; 2; 5; 1]%N == 9#2.
+Proof. vm_compute. reflexivity. Qed.
 
 Example ex_kij : kij [1; 1; 2]%N [3]%N [(3, 1, 1#4)%N] == 1#6.
 Proof. vm_compute. reflexivity. Qed.
